@@ -109,6 +109,10 @@ structure RaceSt where
   ansLock : Bool := false
   /-- model parameter: `Topic.exit` sets the flag under the topic write lock (tie `topic_exit_flag_shape`) -/
   topicBarrier : Bool := false
+  /-- model parameter: `NSQD.Exit` waits for every connection handler and the messagePump it joins
+  (`tcpServer.Close` … `handlers.Wait`, `IOLoop` … `<-messagePumpDoneChan`) *before* it closes the topics
+  (tie `exit_joins_pumps_shape`; fixes/F23) -/
+  pumpJoin : Bool := false
   memCap : Nat := 4
 deriving Repr, DecidableEq
 
@@ -153,11 +157,14 @@ def raceStep (s : RaceSt) : RaceStep → Option RaceSt
           some { s with topicMem := rest, chanMem := s.chanMem ++ [m], fanned := m :: s.fanned }
         else some { s with topicMem := rest, chanDisk := s.chanDisk ++ [m], fanned := m :: s.fanned }
   | .pumpRecv =>
+    if s.pumpJoin && s.topicExiting then none           -- every pump has ended before the topics are closed
+    else
     match s.chanMem with
     | [] => none
     | m :: rest => some { s with chanMem := rest, pumpHolds := m :: s.pumpHolds }
   | .pumpRecvDisk =>
-    if s.chanClosed then none                           -- the closed disk queue hands nothing out
+    if s.pumpJoin && s.topicExiting then none
+    else if s.chanClosed then none                      -- the closed disk queue hands nothing out
     else
       match s.chanDisk with
       | [] => none
@@ -204,6 +211,7 @@ def raceStep (s : RaceSt) : RaceStep → Option RaceSt
   | .exitFlag =>
     if s.topicExiting then none
     else if s.topicBarrier && !s.putPending.isEmpty then none   -- t.Lock() waits for the publishers' read locks
+    else if s.pumpJoin && !s.pumpHolds.isEmpty then none        -- tcpServer.Close() waits for the pumps (a parked pump registers first)
     else some { s with topicExiting := true }
   | .exitChan =>
     if s.scanLock && !s.scanHolds.isEmpty then none     -- exitMutex: exit waits for the scan
@@ -233,5 +241,8 @@ def raceDone (s : RaceSt) : Bool :=
 
 /-- the tree with fixes/F17 (topic exit barrier) and fixes/F18 (answers hold the exit lock) -/
 def fixedTree : RaceSt := { ansLock := true, topicBarrier := true }
+
+/-- … and with fixes/F23 (Exit joins the connection handlers and their pumps before closing the topics) -/
+def joinedTree : RaceSt := { ansLock := true, topicBarrier := true, pumpJoin := true }
 
 end Nsq.Model.Restart
